@@ -49,6 +49,9 @@ func (Engine) Generate(prop, tier string, run int, seed uint64) *kernel.Scenario
 	case "C03", "C04":
 		return genSettleScenario(r, prop)
 	case "C08":
+		if r.Bool(0.2) {
+			return genC08V(r)
+		}
 		return genC08(r)
 	case "C12":
 		return genC12(r)
@@ -68,6 +71,9 @@ func (Engine) Execute(t *testing.T, sc *kernel.Scenario, trace bool) *kernel.Res
 	case "C03", "C04":
 		return execSettle(t, sc, trace)
 	case "C08":
+		if sc.Cfg("trio", 0) == 1 {
+			return execC08V(t, sc, trace)
+		}
 		return execC08(t, sc, trace)
 	case "C12":
 		return execC12(t, sc, trace)
@@ -118,7 +124,7 @@ func (Engine) Describe(prop string) kernel.Describe {
 		d.Assumptions = []string{"decodable = survives Encode+Decode of the run's serializer; other envelopes are counted (probe.undecodable) and not sent",
 			"the adversary's real client does not answer sync messages", "runs are capped at 20000 seam events (probe.event_cap_hit)"}
 	case "C08":
-		d.Rule = "honest openings (ledger channels with drawn challenge duration up to 2^40 s, 1-3 assets, zero balances, funding agreement, app, aux; sub-channels) with scenario-controlled nonce shares, interleaved with crafted proposals that break exactly one validity condition, sent by a stranger or by the channel counterparty and passed through the real serializer. Oracles: identical parameters/ID/participant order/fully signed version-0 state equal to the proposal on both sides; different nonce shares => different IDs; handler never runs for a mutant, no channel is created from one, no panic, a later honest proposal succeeds. Non-trivial: at least one opening and (a mutant or a second opening)."
+		d.Rule = "honest openings (ledger channels with drawn challenge duration up to 2^40 s, 1-3 assets, zero balances, funding agreement, app, aux; sub-channels) with scenario-controlled nonce shares, interleaved with crafted proposals that break exactly one validity condition, sent by a stranger or by the channel counterparty and passed through the real serializer. Oracles: identical parameters/ID/participant order/fully signed version-0 state equal to the proposal on both sides; different nonce shares => different IDs; handler never runs for a mutant, no channel is created from one, no panic, a later honest proposal succeeds. Non-trivial: at least one opening and (a mutant or a second opening). 20% of the runs are three-party runs: honest virtual channel openings A<->B through the hub (1-3 per run, drawn balances including zero) with the same identity checks on the two endpoints."
 		d.FaultKinds = append([]string{"delay/reorder", "yield hooks"}, c08Mutations...)
 		d.Assumptions = []string{"mutants that the serializer cannot encode or decode are outside the quantifier and only counted (probe.mutant_undecodable)"}
 	}
